@@ -149,6 +149,9 @@ def decoder_cases(draw, decoders=None, max_n=60, n_errors=40):
         dparams = {'max_bp_iter': draw(st.sampled_from([1, 10, 1000])),
                    'osd_order': draw(st.sampled_from([0, 10])),
                    'channel_update': draw(st.booleans())}
+        bm = draw(st.sampled_from([None, None, 'product_sum', 'minimum_sum']))
+        if bm is not None:
+            dparams['bp_method'] = bm
     elif name == 'MemoryBeliefPropagationDecoder':
         cls = draw(st.sampled_from(['Toric2DCode', 'Planar2DCode', 'RotatedPlanar2DCode',
                                     'RotatedPlanar3DCode', 'Color666PlanarCode']))
@@ -172,7 +175,10 @@ def decoder_cases(draw, decoders=None, max_n=60, n_errors=40):
             if et is not None:
                 dparams = {'error_type': et}
     r, nd, nk = draw(noise(code_cls=cls))
-    p = draw(st.sampled_from(RATES))
+    # rates above 1/2 are legitimate (prior-sensitive decoders behave very
+    # differently there); matching-type decoders need marginals below 1/2
+    p = draw(st.sampled_from(RATES + ([0.6, 0.75] if name in (
+        'BeliefPropagationOSDDecoder', 'MemoryBeliefPropagationDecoder') else [])))
     n_err = n_errors
     if name in ('UnionFindDecoder',):
         n_err = max(6, n_errors // 3)
